@@ -9,6 +9,8 @@ from ..model import first_diff
 
 ID = "C04"
 BUDGET = {"quick": 700, "thorough": 2500}
+TECHNIQUE = 'Hypothesis-generated operand tuples vs model equality + structural predicates + idempotence/aliasing snapshots'
+LEVEL_TEXT = 'Each of the four align functions is called on 1-4 generated operands (one third under non-default retain/sort options); results must be model-equal to the inputs, share shape/names/exponents/keys as applicable, be idempotent and leave the arguments byte-identical.'
 RULE = (
     "tuples of 1-4 polynomial-likes (polynomial arrays 0-d..3-d with 1-4 names in equal/overlapping/"
     "disjoint sets, 0-6 terms, int/float/complex; Python numbers, lists, ndarrays) drawn from one "
